@@ -1,6 +1,9 @@
 package c13
 
 import (
+	"crypto/ecdsa"
+	"crypto/ed25519"
+	"crypto/elliptic"
 	"crypto/x509"
 	"crypto/x509/pkix"
 	"encoding/asn1"
@@ -33,6 +36,39 @@ var certSeeds = []seedT{
 	{name: "cert-sm2-ca", gen: func() []byte { return kr.CACert().Raw }, parts: 4},
 	{name: "cert-rsa2048", gen: func() []byte { return kr.RSACert().Raw }, parts: 4},
 	{name: "cert-ecdsa-p256", gen: func() []byte { return kr.ECDSACert().Raw }, parts: 2},
+	// every further curve the decoders accept: relabelling edits (mutenum oid=...) then offer each key type under each
+	// algorithm identifier
+	{name: "cert-ecdsa-p224", gen: func() []byte { return curveCert(elliptic.P224(), "p224", x509.ECDSAWithSHA256) }, parts: 2},
+	{name: "cert-ecdsa-p384", gen: func() []byte { return curveCert(elliptic.P384(), "p384", x509.ECDSAWithSHA384) }, parts: 2},
+	{name: "cert-ecdsa-p521", gen: func() []byte { return curveCert(elliptic.P521(), "p521", x509.ECDSAWithSHA512) }, parts: 2},
+	{name: "cert-ed25519", gen: edCert, parts: 2},
+}
+
+func curveKey(c elliptic.Curve, tag string) *ecdsa.PrivateKey {
+	return must(ecdsa.GenerateKey(c, detRand("key:"+tag)))
+}
+
+func curveCert(c elliptic.Curve, tag string, alg x509.SignatureAlgorithm) []byte {
+	k := curveKey(c, tag)
+	return kr.selfSigned(tag+".example.com", 0x7000+int64(len(tag))*int64(tag[1]), alg, &k.PublicKey, k).Raw
+}
+
+func edKey() ed25519.PrivateKey {
+	_, k, err := ed25519.GenerateKey(detRand("key:ed25519"))
+	if err != nil {
+		panic(err)
+	}
+	return k
+}
+
+func edCert() []byte {
+	k := edKey()
+	return kr.selfSigned("ed25519.example.com", 0x7ed5, x509.PureEd25519, k.Public(), k).Raw
+}
+
+func curveCSR(c elliptic.Curve, tag string, alg x509.SignatureAlgorithm) []byte {
+	tpl := &x509.CertificateRequest{Subject: name(tag + "-csr.example.com"), DNSNames: []string{tag + "-csr.example.com"}, SignatureAlgorithm: alg}
+	return must(smx509.CreateCertificateRequest(detRand("csr-"+tag), tpl, curveKey(c, tag)))
 }
 
 func csrSM2() []byte {
@@ -112,7 +148,15 @@ func epsSMX509() []*epT {
 		x.g(n+">CheckSignature", func() { c.CheckSignature() })
 		x.g(n+">ToX509", func() { c.ToX509() })
 	}
-	csrSeeds := []seedT{{name: "csr-sm2", gen: csrSM2, parts: 2}, {name: "csr-rsa1024", gen: csrRSA, parts: 2}}
+	csrSeeds := []seedT{{name: "csr-sm2", gen: csrSM2, parts: 2}, {name: "csr-rsa1024", gen: csrRSA, parts: 2},
+		{name: "csr-ecdsa-p224", gen: func() []byte { return curveCSR(elliptic.P224(), "p224", x509.ECDSAWithSHA256) }, parts: 2},
+		{name: "csr-ecdsa-p256", gen: func() []byte { return curveCSR(elliptic.P256(), "p256c", x509.ECDSAWithSHA256) }, parts: 2},
+		{name: "csr-ecdsa-p384", gen: func() []byte { return curveCSR(elliptic.P384(), "p384", x509.ECDSAWithSHA384) }, parts: 2},
+		{name: "csr-ecdsa-p521", gen: func() []byte { return curveCSR(elliptic.P521(), "p521", x509.ECDSAWithSHA512) }, parts: 2},
+		{name: "csr-ed25519", gen: func() []byte {
+			tpl := &x509.CertificateRequest{Subject: name("ed-csr.example.com"), SignatureAlgorithm: x509.PureEd25519}
+			return must(smx509.CreateCertificateRequest(detRand("csr-ed"), tpl, edKey()))
+		}, parts: 2}}
 	crlSeeds := []seedT{{name: "crl-sm2", gen: crlSM2, parts: 2}}
 	pkixSeeds := []seedT{
 		S("pkix-pub-sm2", func() []byte { return must(smx509.MarshalPKIXPublicKey(&kr.SM2EE().PublicKey)) }),
